@@ -1,7 +1,7 @@
 (** C19 — metric log.  Statements only; proofs in Proofs/C19Proofs.v.
     The writer's index invariant and the torn-tail lemma hold for every history; search
     correctness across files and after a crash is evaluated on traces (Spec/C19Spec.v), see DESIGN. *)
-From SV Require Import Model.Base Model.MetricLine Model.MetricLog Spec.C19Inv Proofs.C19Proofs.
+From SV Require Import Model.Base Model.MetricLine Model.MetricLog Spec.C19Inv Spec.C19Search Proofs.C19Proofs Proofs.C19SearchProofs Proofs.C19GoodProofs.
 Open Scope N_scope.
 
 (** whatever is written, at any timestamps, with any limits: every file in the directory is the
@@ -32,3 +32,39 @@ Proof. exact c19_torn_tail. Qed.
 (** every complete line parses back to the item that was written (up to the separator in names) *)
 Theorem C19_lines_parse_back : forall i, item_wf i -> from_line (to_line i) = Some (norm i).
 Proof. exact c19_lines_parse_back. Qed.
+
+(** on every well-formed directory (any number of files, any sizes): a search by time range and
+    resource returns exactly the items from the first indexed second at or after the begin second,
+    in write order, up to the end second, of the requested resource - reading on across files *)
+Theorem C19_find_by_time_exact : forall fs begin_ms end_ms res,
+  good_dir fs ->
+  find_by_time (map conc fs) begin_ms end_ms res = expected_by_time fs (begin_ms / 1000) (end_ms / 1000) res.
+Proof. exact c19_find_by_time_exact. Qed.
+
+(** what is written: timestamps and items printable, names without line feed *)
+Definition ws_ok (ws : list (N * list mitem)) : Prop :=
+  Forall (fun x => fst x <= U64_MAX /\ Forall (fun i => item_wf (with_ts (fst x) i) /\ name_ok i) (snd x)) ws.
+
+(** every directory the writer leaves behind is well formed (files in listing order, index entries right,
+    seconds never decreasing along the directory) as long as no file reaches 2^64 bytes ... *)
+Theorem C19_written_directory_is_good : forall now max_size max_files w0 ws,
+  writer_new now max_size max_files = Some w0 -> ws_ok ws ->
+  Forall (fun f => N.of_nat (length (f_log f)) < U64) (w_dir (after_writes w0 ws)) ->
+  exists fs, good_dir fs /\ w_dir (after_writes w0 ws) = map conc fs.
+Proof. exact c19_written_dir_good. Qed.
+
+(** ... so after any history of writes a search by time range and resource returns exactly the retained
+    items from the first indexed second at or after the begin second, in write order, up to the end second *)
+Theorem C19_search_after_writes : forall now max_size max_files w0 ws,
+  writer_new now max_size max_files = Some w0 -> ws_ok ws ->
+  Forall (fun f => N.of_nat (length (f_log f)) < U64) (w_dir (after_writes w0 ws)) ->
+  exists fs, good_dir fs /\ w_dir (after_writes w0 ws) = map conc fs /\
+    forall begin_ms end_ms res,
+      find_by_time (w_dir (after_writes w0 ws)) begin_ms end_ms res =
+      expected_by_time fs (begin_ms / 1000) (end_ms / 1000) res.
+Proof.
+  intros now max_size max_files w0 ws H1 H2 H3.
+  destruct (c19_written_dir_good now max_size max_files w0 ws H1 H2 H3) as [fs [G E]].
+  exists fs. split; [exact G|]. split; [exact E|].
+  intros b e res. rewrite E. apply c19_find_by_time_exact. exact G.
+Qed.
